@@ -167,7 +167,19 @@ func runWorker(args []string) int {
 			if fb := atomic.LoadInt64(&familyCPUBudget); fb > 0 {
 				budget = fb
 			}
+			if os.Getenv("VERIF_SELFTEST") == "harnesshang" {
+				budget = 3
+			}
 			if cpu-st > budget*int64(time.Second) {
+				// where is the time going? A stack without a frame of the engine means the harness itself (a
+				// generator, the reference) does not terminate: that is an error of the check, not of the engine.
+				buf := make([]byte, 1<<20)
+				stacks := string(buf[:runtime.Stack(buf, true)])
+				os.Stderr.WriteString("CPU budget of one case used up; goroutines:\n" + stacks)
+				if !strings.Contains(stacks, "github.com/antchfx/xpath.") {
+					af.WriteAt([]byte("HARNESSHANG "), 121)
+					os.Exit(5)
+				}
 				af.WriteAt([]byte("CPUHANG "), 121)
 				os.Exit(3)
 			}
@@ -215,6 +227,10 @@ func runWorker(args []string) int {
 						rep.Harness = append(rep.Harness, fmt.Sprintf("%s: harness panic: %v\n%s", key, x, buf[:runtime.Stack(buf, false)]))
 					}
 				}()
+				if os.Getenv("VERIF_SELFTEST") == "harnesshang" && idx == 0 && fam.Name != "witness" {
+					for x := 1; x != 0; x += 2 { // self-test of the watchdog's attribution: the harness spins outside the engine
+					}
+				}
 				fam.Run(c)
 			}()
 			atomic.StoreInt64(&caseStartCPU, 0)
@@ -372,6 +388,14 @@ func runDriver(args []string) int {
 				// the worker died: blame the last announced case
 				ab, _ := os.ReadFile(annF)
 				last := strings.TrimSpace(string(ab))
+				if strings.Contains(last, "HARNESSHANG") {
+					if k := strings.IndexByte(last, ' '); k > 0 {
+						last = last[:k]
+					}
+					note(fmt.Sprintf("harness error: case %s used up its CPU budget outside the engine (no engine frame on any stack): %s", last, tail(logF, 25)), true)
+					skips = append(skips, last)
+					continue
+				}
 				cpuHang := strings.Contains(last, "CPUHANG")
 				blocked := strings.Contains(last, "BLOCKED")
 				if k := strings.IndexByte(last, ' '); k > 0 {
